@@ -23,6 +23,9 @@ type PropSpec struct {
 	Assumptions []string `json:"assumptions"`
 	Note        string   `json:"note"`
 	Bounded     []string `json:"bounded,omitempty"` // names of bounded stand-in checks (run by ./check, not govc)
+	// Exclude: glob patterns of obligations that are NOT claimed although a pattern or the
+	// automatic support closure (loop invariants of the listed functions) would select them.
+	Exclude []string `json:"exclude,omitempty"`
 }
 
 type KnownFinding struct {
@@ -206,9 +209,25 @@ func cmdCheck(args []string) int {
 		all = append(all, res.Obls...)
 	}
 	// select claimed obligations
+	// Support closure: an ensures clause is proved from the loop invariants of its function, and a
+	// broken invariant is reported under the invariant's own name - so every loop-invariant
+	// obligation of a function from which something is claimed is claimed too.
+	pats := append([]string(nil), spec.Obligations...)
+	for _, f := range spec.Functions {
+		pats = append(pats, f+".loop*")
+	}
 	var claimed []*Obligation
 	for _, o := range all {
-		for _, p := range spec.Obligations {
+		excluded := false
+		for _, p := range spec.Exclude {
+			if globMatch(p, o.Name) {
+				excluded = true
+			}
+		}
+		if excluded {
+			continue
+		}
+		for _, p := range pats {
 			if globMatch(p, o.Name) {
 				claimed = append(claimed, o)
 				break
